@@ -5,6 +5,7 @@
 #include <cassert>
 #include <igris/util/ctrdtr.h>
 #include <initializer_list>
+#include <iterator>
 #include <memory>
 #include <utility>
 
@@ -23,8 +24,8 @@ namespace igris
         using size_type = ::size_t;
         using difference_type = ::ptrdiff_t;
         using iterator_category = std::random_access_iterator_tag;
-        using reverse_iterator = T *;
-        using const_reverse_iterator = const T *;
+        using reverse_iterator = std::reverse_iterator<iterator>;
+        using const_reverse_iterator = std::reverse_iterator<const_iterator>;
 
     private:
         // resources
@@ -201,13 +202,13 @@ namespace igris
         {
             return m_data + m_size;
         }
-        iterator rbegin()
+        reverse_iterator rbegin()
         {
-            return m_data + m_size - 1;
+            return reverse_iterator(end());
         }
-        const_iterator rend()
+        reverse_iterator rend()
         {
-            return m_data - 1;
+            return reverse_iterator(begin());
         }
 
         const_iterator begin() const
@@ -218,13 +219,13 @@ namespace igris
         {
             return m_data + m_size;
         }
-        const_iterator rbegin() const
+        const_reverse_iterator rbegin() const
         {
-            return m_data + m_size - 1;
+            return const_reverse_iterator(end());
         }
-        const_iterator rend() const
+        const_reverse_iterator rend() const
         {
-            return m_data - 1;
+            return const_reverse_iterator(begin());
         }
 
         template <typename... Args> void emplace_back(Args &&... args)
